@@ -78,7 +78,9 @@ func vWoHeaderSmall() *WorkObjectHeader {
 	}
 }
 
-// H-C15-a2: WorkObjectHeader.ProtoDecode never panics under single-site damage (as H-C15-a1).
+// H-C15-a2: WorkObjectHeader.ProtoDecode never panics under single-site damage (as H-C15-a1), and a header
+// it accepts after the KawPow fork carries every share-difficulty value that header, uncle and work-share
+// validation dereference without a nil check (the decoder is their only guard).
 //
 // verif:bounds split=512
 func VerifH_C15_a2() {
@@ -94,7 +96,17 @@ func VerifH_C15_a2() {
 	if derr == nil {
 		_ = out.NumberU64()
 		_ = out.Location()
-		_ = out.KawpowActivationHappened()
+		if out.KawpowActivationHappened() {
+			// what header / uncle / work-share validation dereferences on every accepted post-fork header
+			// (verifyHeader, VerifyUncles, CalculateKawpowShareDiff, the gossip validator)
+			vReach("decoded/post-fork")
+			sd, sc := out.ShaDiffAndCount(), out.ScryptDiffAndCount()
+			vAssert("decoder/post-fork-share-fields-complete", sd != nil && sc != nil && sd.Difficulty() != nil && sd.Count() != nil && sd.Uncled() != nil &&
+				sc.Difficulty() != nil && sc.Count() != nil && sc.Uncled() != nil &&
+				out.ShaShareTarget() != nil && out.ScryptShareTarget() != nil && out.KawpowDifficulty() != nil)
+			_ = sd.Difficulty().Cmp(sc.Difficulty()) + sd.Count().Cmp(sc.Count()) + sd.Uncled().Cmp(sc.Uncled())
+			_ = out.ShaShareTarget().Cmp(out.ScryptShareTarget()) + out.KawpowDifficulty().Sign()
+		}
 	}
 }
 
